@@ -288,7 +288,11 @@ func opDeliver(w *World, s *Step) (string, string) {
 	if s.Rx != nil {
 		rx = *s.Rx
 	}
-	c.buf = rxBuffer(c.wire, rx.Spare)
+	if w.prop == "C20" {
+		c.buf = w.arenaBuf(c.wire, rx.Spare)
+	} else {
+		c.buf = rxBuffer(c.wire, rx.Spare)
+	}
 	if c.sa != nil {
 		var err error
 		c.key, err = w.keyFor(c.sa, c.toRole, s.Obj, w.prop == "C02")
